@@ -180,6 +180,8 @@ impl BuildStates {
         if !skip_ui_count {
             self.counts.add(state, 1);
         }
+        #[cfg(feature = "verif")]
+        crate::verif::on_set(id, prev, state, &self.counts, self.total_pending);
 
         /*
         This is too expensive to log on every individual state change...
